@@ -1265,7 +1265,7 @@ func (repo *Repository) load(ctx context.Context, depth int) error {
 }
 
 func (repo *Repository) loadBranchHashHeights(ctx context.Context, branch *Branch) {
-	height := branch.parentHeight + 1
+	height := branch.PrunedLowestHeight() // the first header in memory, which may have been pruned
 	for _, headerData := range branch.headers {
 		repo.heights[headerData.Hash] = height
 		height++
